@@ -133,7 +133,17 @@ def polling_root_gone(ctx, res: Result):
                     em.queue_events(0)
                     before = q.qsize()
                     gone["on"] = True
-                    em.queue_events(0)
+                    meta = {"backend": "polling", "recursive": recursive, "errno": errno.errorcode[err], "failing_call": where}
+                    try:
+                        em.queue_events(0)
+                    except Exception as ex:      # noqa: BLE001 - in the running observer this kills the emitter thread
+                        res.evaluations += 1
+                        res.failures.append(Failure(
+                            what=f"polling emitter, root gone ({errno.errorcode[err]} from {where}): queue_events() raised "
+                                 f"{type(ex).__name__} - the emitter thread would die", case=meta,
+                            signature={"law": "thread-died", "exception": type(ex).__name__, "backend": "polling"},
+                            observed=repr(ex), expected="[DirDeletedEvent(root)], emitter stopped"))
+                        continue
                     evs = []
                     while q.qsize():
                         evs.append(q.get()[0])
@@ -227,6 +237,12 @@ def replay(ctx, obj) -> int:
     if "prog" in case:
         from harness import obsprog as op
         return op.replay_generic(ctx, obj, [judge_api])
+    if case.get("backend") == "polling":
+        res = Result()
+        polling_root_gone(ctx, res)
+        for f in res.failures:
+            print("FAIL:", f.what, f.observed)
+        return 1 if res.failures else 0
     res = Result()
     batch = []
     one(ctx, res, case["history"], (case["recursive"], case["full_events"], case["path_kind"]), batch,
